@@ -295,8 +295,8 @@ def direct_step_checks(ctx, what, cfgd, x0, delta, cur, out, orc, replay):
                   dict(replay, reported=float(n_new), actual=float(ent[1])))
     if what == "armijo":
         if cur is None or not (n_new <= cur):
-            viol_once(ctx, "armijo:norm-increased", "line search returned |R|=%r from current |R|=%r" % (float(n_new), cur),
-                      dict(replay, returned_norm=float(n_new), current_norm=cur))
+            viol_once(ctx, "armijo:norm-increased", "line search returned |R|=%r from current |R|=%r" % (float(n_new), None if cur is None else float(cur)),
+                      dict(replay, returned_norm=float(n_new)))
 
 
 def run_armijo_cases(ctx, n_cases):
@@ -649,7 +649,12 @@ def direct_newton_checks(ctx, kind, real, orc, steps, tol, max_attempts, md, rep
         if k > max_attempts:
             viol_once(ctx, "newton:iterations-exceed-cap", "reported %d iterations with max_attempts=%d" % (k, max_attempts), replay)
     if kind == "armijo":
-        norms = [v for (_, kd, v) in orc.main_queries if kd != "exc"]
+        norms = []
+        lastk = None
+        for (kx, kd, v) in orc.main_queries:
+            if kd != "exc" and kx != lastk:      # the same iterate evaluated twice is not a step
+                norms.append(v)
+                lastk = kx
         for a, b in zip(norms, norms[1:]):
             if a is None or b is None or b > a:
                 viol_once(ctx, "newton:residual-norm-increased", "with line search the residual norm went from %r to %r between iterates" % (
@@ -787,6 +792,58 @@ def gen(ctx):
 
 
 # ----------------------------------------------------------------------------------------------------------
+# glue between solver and orbit (operators.py / interfaces.py), exact integer data, stub propagation
+# ----------------------------------------------------------------------------------------------------------
+
+def operator_checks(ctx, n_cases):
+    """residual = x_event[residual_indices] - target, Jacobian = Phi[ix_(res,ctrl)] - extra, full state = template with the
+    parameters written at the control indices (template untouched) — compared exactly with an independent evaluation"""
+    from types import SimpleNamespace
+    from hiten.algorithms.corrector.interfaces import _OrbitCorrectionInterface
+    from hiten.algorithms.corrector.operators import _SingleShootingOrbitOperators
+    rng = ctx.rng
+    bad = 0
+    for ci_ in range(n_cases):
+        k = rng.choice([1, 2, 2, 3])
+        ctrl = tuple(rng.sample(range(6), k))
+        res = tuple(rng.sample(range(6), k))
+        template = np.array([float(rng.randrange(-50, 50)) for _ in range(6)])
+        target = tuple(float(rng.randrange(-5, 5)) for _ in range(k))
+        A = np.array([[float(rng.randrange(-4, 5)) for _ in range(6)] for _ in range(6)])
+        Phi = np.array([[float(rng.randrange(-9, 10)) for _ in range(6)] for _ in range(6)])
+        extra = np.array([[float(rng.randrange(-3, 4)) for _ in range(k)] for _ in range(k)]) if rng.random() < 0.5 else None
+        params = np.array([float(rng.randrange(-50, 50)) for _ in range(k)])
+        seen = {}
+
+        def event(*, dynsys, x0, forward=1, _A=A, _seen=seen):
+            _seen["x0"] = np.array(x0, dtype=float)
+            return 7.0, _A @ np.asarray(x0, dtype=float)
+        dom = SimpleNamespace(initial_state=template.copy(), dynamics=SimpleNamespace(dynsys=None, var_dynsys=None))
+        ops = _SingleShootingOrbitOperators(domain_obj=dom, control_indices=ctrl, residual_indices=res, target=target,
+                                            extra_jacobian=(None if extra is None else (lambda xe, P, _e=extra: _e.copy())),
+                                            event_func=event, forward=1, method="adaptive", order=8, steps=10)
+        ops.compute_stm_to_event = lambda x0, t, _P=Phi: _P.copy()
+        full = template.copy()
+        for i, v in zip(ctrl, params):
+            full[i] = v
+        r = np.asarray(ops.build_residual_fn()(params.copy()), dtype=float)
+        J = np.asarray(ops.build_jacobian_fn()(params.copy()), dtype=float)
+        xe = A @ full
+        r_exp = np.array([xe[i] for i in res]) - np.array(target)
+        J_exp = np.array([[Phi[i, j] for j in ctrl] for i in res]) - (0.0 if extra is None else extra)
+        rec = _OrbitCorrectionInterface._reconstruct_full_state(template, ctrl, params)
+        ok = (np.array_equal(seen.get("x0"), full) and np.array_equal(r, r_exp) and np.array_equal(J, J_exp)
+              and np.array_equal(rec, full) and np.array_equal(dom.initial_state, template) and np.array_equal(ops._base_state, template))
+        ctx.case("ops:" + json.dumps([ctrl, res, target, params.tolist()]), nontrivial=k >= 2, kind="operators")
+        if not ok:
+            bad += 1
+            if bad <= 2:
+                ctx.broken.append(("correspondence:operators", "single-shooting glue differs from x_event[res]-target / Phi[res,ctrl]-extra / template[ctrl]=params: "
+                                   "ctrl=%r res=%r target=%r params=%r residual=%r expected=%r" % (ctrl, res, target, params.tolist(), r.tolist(), r_exp.tolist())))
+    ctx.obligations["correspondence:operators"] = bad == 0
+
+
+# ----------------------------------------------------------------------------------------------------------
 # numerics: real orbits
 # ----------------------------------------------------------------------------------------------------------
 
@@ -861,12 +918,14 @@ def record_backend(orb, log):
     return be
 
 
-def numerics(ctx):
+def numerics(ctx, cases=None):
     from hiten.system import System
     systems = {}
     worst = {"closure_ratio": 0.0, "half_ratio": 0.0}
     table = []
-    for bodies, L, fam, kw in orbit_cases(ctx):
+    n_raised = 0
+    all_cases = orbit_cases(ctx) if cases is None else cases
+    for bodies, L, fam, kw in all_cases:
         if bodies not in systems:
             systems[bodies] = System.from_bodies(*bodies)
         sysm = systems[bodies]
@@ -883,9 +942,17 @@ def numerics(ctx):
             record_backend(orb, log)
             res = orb.correct()
         except Exception as ex:
-            # a failure to converge from the analytic seed is an error, which the property allows; record it
+            # a failure to converge from the analytic seed is an error, which the property allows; the orbit must be untouched
             ctx.case(("orbit", ident["system"], L, fam, str(kw)), nontrivial=False, kind="orbit:raised")
             table.append(dict(ident, raised=type(ex).__name__))
+            n_raised += 1
+            try:
+                after = np.array(orb.initial_state, dtype=float)
+                if not np.array_equal(after, guess) or orb.period is not None:
+                    viol_once(ctx, "orbit:%s:state-modified-by-failed-correction" % fam, "correction raised %s but the orbit's state/period were modified" % type(ex).__name__,
+                              dict(ident, before=guess.tolist(), after=after.tolist(), period=orb.period))
+            except Exception:
+                pass
             continue
         x0 = np.array(orb.initial_state, dtype=float)
         T = float(orb.period)
@@ -910,7 +977,16 @@ def numerics(ctx):
             if not rn < tol:
                 viol_once(ctx, "orbit:%s:residual-of-returned-state-not-below-tol" % fam,
                           "the constraint residual recomputed at the returned state is %r >= tol %r" % (rn, tol), rep)
+            # independent evaluation of the constraint: SciPy-propagate to the event time and read the residual components
+            t_ev, x_ev = ops.propagate_to_event(x0)
+            xs = scipy_flow(x0, float(t_ev), mu)
+            ri = list(cfgc.residual_indices)
+            indep = float(np.max(np.abs(xs[ri] - np.asarray(cfgc.target, dtype=float))))
+            evdiff = float(np.max(np.abs(xs - np.asarray(x_ev, dtype=float))))
+            rep.update(event_time=float(t_ev), independent_residual=indep, event_state_vs_scipy=evdiff)
+            half_info = (indep, evdiff)
         except Exception as ex:
+            half_info = None
             ctx.notes.append("residual recomputation unavailable for %s: %r" % (fam, ex))
         # (b) line search on the real run: monotone norms, capped updates, reported norm = next current norm
         for a, b in zip(log, log[1:]):
@@ -935,14 +1011,34 @@ def numerics(ctx):
         table.append({k: rep[k] for k in ("system", "L", "family", "params", "period", "iterations", "residual_norm", "closure", "monodromy_inf_norm",
                                             "closure_over_amplified_tol", "closure_over_tol")})
         worst["closure_ratio"] = max(worst["closure_ratio"], ratio if fam != "vertical" else 0.0)
-        # a residual of size tol at the half period is amplified by at most ~|M| over the return; 50x margin on top.
-        if not ratio <= 50.0:
+        if half_info is not None:
+            # errors over the (shorter) arc to the event grow at most like sqrt(|M|) (M ~ symplectic: half the period, half the exponent)
+            amp = (1.0 + math.sqrt(nM)) * tol
+            rep["independent_residual_over_amplified_tol"] = half_info[0] / amp
+            worst["half_ratio"] = max(worst["half_ratio"], half_info[0] / amp)
+            table[-1]["independent_residual"] = half_info[0]
+            table[-1]["independent_residual_over_amplified_tol"] = half_info[0] / amp
+            if not half_info[0] <= 100.0 * amp:
+                viol_once(ctx, "orbit:%s:independent-residual-above-tol" % fam,
+                          "%s orbit (%s L%d %r): the constraint residual evaluated with an independent DOP853 propagation to the event time is %.3g = %.3g x (1+sqrt|M|) tol" % (
+                              fam, ident["system"], L, kw, half_info[0], half_info[0] / amp), rep)
+        # a residual of size tol at the event is amplified by at most ~|M| over the return; 200x margin on top
+        # (observed <= 0.31 for halo/Lyapunov, <= 1.1 for the repaired vertical family; defects give >= 1e6).
+        if not ratio <= 200.0:
             viol_once(ctx, "closure:%s" % fam,
                       "%s orbit (%s L%d %r): after one reported period the independent DOP853 propagation misses the start by %.3g = %.3g x (1+|M|) tol" % (
                           fam, ident["system"], L, kw, clos, ratio), rep)
     ctx.extra["orbits"] = table
+    if 3 * n_raised > len(all_cases):
+        # nothing to close: the periodicity sentence cannot be exercised (the baseline list converges on a healthy tree)
+        ctx.broken.append(("numerics:orbit-corrections-run", "%d of %d baseline corrections raised" % (n_raised, len(all_cases))))
+        ctx.obligations["numerics:orbit-corrections-run"] = False
+    else:
+        ctx.obligations["numerics:orbit-corrections-run"] = True
     ctx.extra["worst_closure_over_amplified_tol"] = worst["closure_ratio"]
-    unconverged_raise(ctx, systems)
+    ctx.extra["worst_independent_residual_over_amplified_tol"] = worst["half_ratio"]
+    if cases is None:
+        unconverged_raise(ctx, systems)
 
 
 def unconverged_raise(ctx, systems):
@@ -996,11 +1092,21 @@ def _run(ctx):
             ctx.leanchecker(mods)
     validate_field(ctx)
     big = ctx.thorough()
-    run_armijo_cases(ctx, 1500 if big else 300)
-    run_plain_cases(ctx, 300 if big else 80)
-    run_newton_cases(ctx, 1200 if big else 250)
+    run_armijo_cases(ctx, 6000 if big else 300)
+    run_plain_cases(ctx, 1200 if big else 80)
+    run_newton_cases(ctx, 5000 if big else 250)
+    operator_checks(ctx, 2000 if big else 100)
     ctx.extra["correspondence_cases"] = ctx.corr_cases
     numerics(ctx)
+    if ctx.broken:
+        concrete = [v for v in ctx.violations if v["found_input"]]
+        solver = [v for v in concrete if v["key"].split(":")[0] in ("newton", "armijo", "plain", "orbit")]
+        if (concrete or ctx.known) and not solver:
+            # the framework only prints its own `no-failing-input-found` line when there is no other finding at all; make
+            # sure a model/code divergence is never hidden behind an unrelated (e.g. known) finding
+            ctx.violation("broken-obligation:solver-model",
+                          "a theorem or the model/code correspondence no longer checks; the failing-input search on the real solver found no property violation",
+                          {"broken": [{"theorem_or_correspondence": n, "message": m[:600]} for n, m in ctx.broken]}, found_input=False)
     ctx.rule = ("solver: random configuration (rho in {1/2,1/4,3/4}, min_alpha, c incl. the shipped 0.1, cap none/inf/105*2^-k) x dimension {1,2,3,6} x "
                 "norm kind (custom first-component, default L2, interface inf-norm) x lazily random residual-norm oracle (big/slight decrease, equality, "
                 "exact Armijo threshold, increase, NaN, raising residual, raising norm) x start point / tolerance (incl. r == tol) / iteration cap 0..12; "
@@ -1010,3 +1116,108 @@ def _run(ctx):
         "floating-point overflow to inf and NaN components inside x/delta are not modelled (NaN/exception of the residual norm are)",
         "mirror theorem (perpendicular crossing of a reversing symmetry plane at t_half => period 2 t_half) is background; periodicity of real orbits is measured, not proved",
     ]
+
+
+# ----------------------------------------------------------------------------------------------------------
+# replay of a recorded violation:  ./check C05 --replay replays/C05-<hash>.json
+# ----------------------------------------------------------------------------------------------------------
+
+def _replay_oracle(rp, dim):
+    import random
+    orc = Oracle(random.Random(0), dim, "first", WEIGHTS[0], p_nan=0.0, p_exc=1.0)   # unknown points raise
+    for k, kind, v in rp.get("residual_norm_table", []):
+        orc.forced[tuple(float(a) for a in k)] = (kind, None if v is None else fr(v))
+    return orc
+
+
+def replay(ctx, rec):
+    import logging
+    prev = logging.root.manager.disable
+    logging.disable(logging.WARNING)
+    try:
+        _reported.clear()
+        key = rec.get("key", "")
+        rp = rec.get("replay", {}) or {}
+        ctx.log("replaying", key)
+        if "family" in rp and "max_attempts" in rp:
+            unconverged_raise(ctx, {})
+        elif "family" in rp:
+            numerics(ctx, cases=[(tuple(rp["system"].split("-")), int(rp["L"]), rp["family"], rp["params"])])
+        elif rp.get("call") == "_NewtonBackend.run":
+            _replay_newton(ctx, rp)
+        elif rp.get("call") in ("_ArmijoLineSearch", "_CorrectorPlainStep"):
+            _replay_step(ctx, rp)
+        else:
+            _run(ctx)
+        ctx.log("replay reproduced the violation" if ctx.violations or ctx.known else "replay did NOT reproduce the violation on this tree")
+    finally:
+        logging.disable(prev)
+
+
+def _replay_step(ctx, rp):
+    from hiten.algorithms.corrector.stepping import make_armijo_stepper, make_plain_stepper
+    x0 = np.array(rp["x0"], dtype=float)
+    delta = np.array(rp["delta"], dtype=float)
+    orc = _replay_oracle(rp, len(x0))
+    orc.in_stepper = True
+    md = rp["max_delta"]
+    if rp["call"] == "_ArmijoLineSearch":
+        st = make_armijo_stepper(alpha_reduction=rp["alpha_reduction"], min_alpha=rp["min_alpha"], armijo_c=rp["armijo_c"])(
+            orc.residual_fn, orc.stepper_norm(), md)
+        cur = rp["current_norm"]
+        out = st(x0.copy(), delta.copy(), cur)
+        ctx.log("line search returned", out)
+        direct_step_checks(ctx, "armijo", {"max_delta": md}, x0, delta, None if (cur is None or math.isnan(cur)) else fr(cur), out, orc, rp)
+    else:
+        st = make_plain_stepper()(orc.residual_fn, orc.stepper_norm(), md)
+        out = st(x0.copy(), delta.copy(), 1.0)
+        ctx.log("plain stepper returned", out)
+        direct_step_checks(ctx, "plain", {"max_delta": md}, x0, delta, None, out, orc, rp)
+
+
+def _replay_newton(ctx, rp):
+    from hiten.algorithms.corrector.backends.newton import _NewtonBackend
+    from hiten.algorithms.corrector.stepping import make_armijo_stepper, make_plain_stepper
+    from hiten.algorithms.corrector.types import CorrectorInput
+    x0 = np.array(rp["x0"], dtype=float)
+    orc = _replay_oracle(rp, len(x0))
+    dirs = {tuple(float(a) for a in x): np.array(d, dtype=float) for x, d in rp.get("newton_directions", [])}
+    steps = []
+    cur_x = [None]
+
+    def jacobian_fn(x):
+        cur_x[0] = orc.key(x)
+        return np.eye(len(x))
+    inner = (make_armijo_stepper(alpha_reduction=rp["alpha_reduction"], min_alpha=rp["min_alpha"], armijo_c=rp["armijo_c"])
+             if rp["stepper"] == "armijo" else make_plain_stepper())
+
+    def factory(residual_fn, norm_fn, max_delta):
+        st = inner(residual_fn, norm_fn, max_delta)
+
+        def stepper(x, delta, current_norm):
+            ent = {"x": np.array(x, dtype=float), "delta": np.array(delta, dtype=float)}
+            orc.in_stepper = True
+            try:
+                out = st(x, delta, current_norm)
+                ent["out"] = (np.array(out[0], dtype=float), out[1], out[2])
+                return out
+            finally:
+                orc.in_stepper = False
+                steps.append(ent)
+        return stepper
+    be = _NewtonBackend(stepper_factory=factory)
+    def solve(J, r, cond_threshold=1e8):      # replay the recorded linear-solve oracle
+        if cur_x[0] not in dirs:
+            raise LookupError("no Newton direction recorded at %r: on this tree the run leaves the recorded one" % (cur_x[0],))
+        return dirs[cur_x[0]].copy()
+    be._solve_delta_dense = solve
+    req = CorrectorInput(initial_guess=x0.copy(), residual_fn=orc.residual_fn, jacobian_fn=jacobian_fn, norm_fn=orc.norm_callable(),
+                         max_attempts=int(rp["max_attempts"]), tol=float(rp["tol"]), max_delta=rp["max_delta"], fd_step=1e-8)
+    try:
+        res = be.run(request=req)
+        real = ("ok", int(res.iterations), res.residual_norm, np.array(res.x_corrected, dtype=float))
+        ctx.log("backend returned x=%r iterations=%d residual_norm=%r (tol=%r)" % (real[3].tolist(), real[1], real[2], rp["tol"]))
+    except Exception as ex:
+        real = ("raised", type(ex).__name__)
+        ctx.log("backend raised", repr(ex)[:200])
+    direct_newton_checks(ctx, rp["stepper"], real, orc, steps, fr(rp["tol"]), int(rp["max_attempts"]), rp["max_delta"], rp)
